@@ -151,7 +151,7 @@ class Table:
         return (text, {"k": "mem", "s": size, "b": b, "i": i, "sc": sc, "d": limbs(d, W), "as": asz, "v": v})
 
     # ---------------------------------------------------------------- rows
-    def add(self, mn, ops, sz=0, pfx="", asm_mn=None, nat=1, form=None, text=None, cc=None):
+    def add(self, mn, ops, sz=0, pfx="", asm_mn=None, nat=1, form=None, text=None, cc=None, asz=None):
         kinds = []
         for _, o in ops:
             k = o["k"]
@@ -161,6 +161,8 @@ class Table:
                "ops": [o for _, o in ops]}
         if cc is not None:
             ins["cc"] = cc
+        if asz is not None:
+            ins["as"] = asz            # address size of an instruction with implicit memory operands
         if text is None:
             text = (pfx + " " if pfx else "") + (asm_mn or mn) + (" " + ", ".join(t for t, _ in ops) if ops else "")
         self.rows.append((text, ins))
@@ -434,6 +436,56 @@ class Table:
             t.add("movsd_sse", [t.xmm(), t.xmm()], 64, asm_mn="movsd")
             t.add("movsd_sse", [t.xmm(), t.mem(64)], 64, asm_mn="movsd")
             t.add("movsd_sse", [t.mem(64), t.xmm()], 64, asm_mn="movsd")
+
+        # ---- second batch (appended so that the templates above keep their register picks)
+        # accumulator short forms (op al/ax/eax/rax, imm)
+        for mn in "add adc sub sbb and or xor cmp test".split():
+            for sz in t.sizes():
+                t.add(mn, [t.reg(sz, idx=0), t.imm(sz)], sz)
+        # absolute-address moves of the accumulator at the other sizes
+        if W == 64:
+            def moffs(sz, off):
+                return ("%s ptr [%d]" % (PTR[sz], WIN + off),
+                        {"k": "mem", "s": sz, "b": "", "i": "", "sc": 1, "d": limbs(WIN + off, 64), "as": 64, "v": "moffs"})
+            t.add("mov", [t.reg(32, idx=0), moffs(32, 72)], 32, asm_mn="movabs")
+            t.add("mov", [t.reg(16, idx=0), moffs(16, 75)], 16, asm_mn="movabs")
+            t.add("mov", [moffs(16, 81), t.reg(16, idx=0)], 16, asm_mn="movabs")
+            t.add("mov", [moffs(32, 83), t.reg(32, idx=0)], 32, asm_mn="movabs")
+            t.add("mov", [moffs(64, 88), t.reg(64, idx=0)], 64, asm_mn="movabs")
+        # segment overrides: es/cs/ss/ds have base 0 in 64-bit mode and in the flat 32-bit model;
+        # fs/gs are not executed natively (and not specified)
+        def seg(op, sname):
+            text, o = op
+            o = dict(o, seg=sname)
+            return (text.replace("ptr [", "ptr %s:[" % sname), o)
+        for sname in ("es", "cs", "ss", "ds"):
+            sz = t.rng.choice(t.sizes((8, 16, 32, 64)))
+            t.add("mov", [t.reg(sz), seg(t.mem(sz, t.rng.choice(["b", "bd8", "bisd"])), sname)], sz)
+            sz = t.rng.choice(t.sizes((16, 32, 64)))
+            t.add(t.rng.choice(["add", "xor", "sub"]), [seg(t.mem(sz, t.rng.choice(["b", "bd8", "bis"])), sname), t.reg(sz)], sz)
+        for sname in ("fs", "gs"):
+            t.add("mov", [t.reg(W), seg(t.mem(W, "b"), sname)], W, nat=0)
+        # string instructions with the address-size override (esi/edi/ecx in 64-bit mode)
+        if W == 64:
+            acc = {8: "al", 16: "ax", 32: "eax"}
+            for sz in (8, 16, 32):
+                pt = PTR[sz]
+                forms = {"movs": "movs %s ptr es:[edi], %s ptr [esi]" % (pt, pt),
+                         "stos": "stos %s ptr es:[edi], %s" % (pt, acc[sz]),
+                         "lods": "lods %s, %s ptr [esi]" % (acc[sz], pt),
+                         "scas": "scas %s, %s ptr es:[edi]" % (acc[sz], pt),
+                         "cmps": "cmps %s ptr [esi], %s ptr es:[edi]" % (pt, pt)}
+                for base, txt in forms.items():
+                    pf = [""] + (["rep"] if base in ("movs", "stos", "lods") else ["repe", "repne"])
+                    for pfx in pf:
+                        t.add(base, [], sz, pfx=pfx, text=(pfx + " " if pfx else "") + txt, asz=32, form="a32")
+        # 16-bit addressing in 32-bit mode (only lea can be judged: the window is not reachable)
+        if W == 32:
+            for txt, b, i, d in (("[bx + si + 5]", "ebx", "esi", 5), ("[bp + di]", "ebp", "edi", 0), ("[bx - 129]", "ebx", "", -129),
+                                 ("[si + 4096]", "esi", "", 4096), ("[bp + si - 2]", "ebp", "esi", -2)):
+                for sz in (16, 32):
+                    t.add("lea", [t.reg(sz), ("%s ptr %s" % (PTR[sz], txt),
+                                              {"k": "mem", "s": sz, "b": b, "i": i, "sc": 1, "d": limbs(d, 32), "as": 16, "v": "a16"})], sz)
 
 
 def assemble(mode, rows):
